@@ -32,6 +32,9 @@ type Spec struct {
 	Replay   json.RawMessage `json:"replay,omitempty"`
 	Only     string          `json:"only,omitempty"`
 	RaceLog  string          `json:"race_log,omitempty"`
+	// Skip: this worker continues the shard of a predecessor that stopped at its memory limit; the
+	// first Skip cells (in Begin order) are done already.
+	Skip int `json:"skip,omitempty"`
 }
 
 type Violation struct {
@@ -55,6 +58,8 @@ type Out struct {
 	Notes       []string         `json:"notes,omitempty"`
 	HarnessErr  string           `json:"harness_error,omitempty"`
 	WallS       float64          `json:"wall_s"`
+	// ResumeSkip >= 0: stopped at the memory limit; a fresh worker process can go on with Skip = this
+	ResumeSkip int `json:"resume_skip"`
 
 	spec    *Spec
 	start   time.Time
@@ -62,6 +67,7 @@ type Out struct {
 	beat    int64
 	memTick int
 	memStop bool
+	begun   int
 	seen    map[string]struct{}
 	vkeys   map[string]int
 	stopped bool
@@ -83,10 +89,10 @@ func Load() (*Spec, *Out) {
 	if s.Workers <= 0 {
 		s.Workers = 1
 	}
-	o := &Out{Exhaustive: true, Extra: map[string]int64{}, spec: s, start: time.Now(), seen: map[string]struct{}{}, vkeys: map[string]int{}}
+	o := &Out{Exhaustive: true, Extra: map[string]int64{}, spec: s, start: time.Now(), seen: map[string]struct{}{}, vkeys: map[string]int{}, ResumeSkip: -1}
 	go o.watchdog()
 	vs.ResourceStop = func() string {
-		if o.memCheck() {
+		if o.memCheck(true) {
 			return "worker memory limit"
 		}
 		return ""
@@ -167,6 +173,9 @@ func procKB(file, field string) uint64 {
 
 func (o *Out) memLimit() uint64 {
 	lim := MemLimit
+	if v, err := strconv.ParseUint(os.Getenv("VERIF_MEMLIMIT_MB"), 10, 64); err == nil && v > 0 {
+		return v << 20 // (for trying out the restart-after-memory-stop path)
+	}
 	if tot := procKB("/proc/meminfo", "MemTotal:") << 10; tot > 0 && o.spec != nil && o.spec.Workers > 0 {
 		if share := tot / 10 * 7 / uint64(o.spec.Workers); share < lim {
 			lim = share
@@ -175,8 +184,20 @@ func (o *Out) memLimit() uint64 {
 	return lim
 }
 
-// memCheck looks at the resident set size every 16th call.
-func (o *Out) memCheck() bool {
+// Begin names the cell that starts now (like Progress) and reports whether it is to be explored: a
+// worker restarted after a memory stop skips the cells its predecessors have done.
+func (o *Out) Begin(cell string) bool {
+	o.begun++
+	if o.spec != nil && o.begun <= o.spec.Skip {
+		return false
+	}
+	o.Progress(cell)
+	return true
+}
+
+// memCheck looks at the resident set size every 16th call. inCell: called from inside an exploration
+// (the cell in progress stays unfinished) rather than between two cells.
+func (o *Out) memCheck(inCell bool) bool {
 	o.memTick++
 	if o.memTick%16 == 0 && !o.memStop {
 		rss := procKB("/proc/self/status", "VmRSS:") << 10
@@ -194,6 +215,12 @@ func (o *Out) memCheck() bool {
 		if rss > o.memLimit() {
 			o.stopped = true
 			o.memStop = true
+			if o.begun > 0 {
+				o.ResumeSkip = o.begun
+				if inCell {
+					o.ResumeSkip = o.begun - 1
+				}
+			}
 			o.Cap("worker memory reached %d MiB (leaked goroutines of abandoned executions); remaining cells and executions not explored", rss>>20)
 		}
 	}
@@ -201,7 +228,7 @@ func (o *Out) memCheck() bool {
 }
 
 func (o *Out) OverBudget() bool {
-	if o.memCheck() {
+	if o.memCheck(false) {
 		return true
 	}
 	d := o.Deadline()
